@@ -353,3 +353,90 @@ def check_rwindow(chk, db, rule="RWINDOW"):
                           "[0, %d); matches may start at positions <= min(pos, size - n), so the prefix to look at is [0, %d)" % (
                               astx.loc(f), "npos" if P == M64 - 1 else P, N, S, got, want), {"where": astx.loc(f)})
     return n_inst
+
+
+# ---- FWINDOW: a forward pointer scan of the view ends at data() + size() -------------------------------------------------
+def check_fwindow(chk, db, rule="FWINDOW"):
+    """The forward searches (find, find_first_of, find_first_not_of) that scan with a pointer `for (s = data() + pos; s != last;
+    ++s)` look at every character up to the end of the view: the end pointer is `data() + size()` as a linear form (const
+    locals substituted). `data() + size() - 1` never looks at the last character."""
+    n = 0
+    for nm in ("find", "find_first_of", "find_first_not_of"):
+        for f in db.by_q.get("etl::basic_string_view::" + nm, []):
+            if f.get("body") is None:
+                continue
+            inits = {}
+            for st in astx.walk_stmts(f["body"]):
+                if st.get("k") == "decl":
+                    for v in st["vars"]:
+                        if "other" not in v and v.get("init") is not None:
+                            inits[v["n"]] = v["init"]
+
+            start_only = [False]
+
+            def lin(e, depth=0):
+                """(data coefficient, size coefficient, constant) or None"""
+                e = astx.strip_casts(e)
+                while e is not None and e.get("k") == "paren":
+                    e = astx.strip_casts(e.get("e"))
+                if e is None or depth > 5:
+                    return None
+                iv = astx.int_value(e)
+                if iv is not None:
+                    return (0, 0, iv)
+                if e.get("k") == "ref" and e.get("d") == "local" and e["n"] in inits:
+                    return lin(inits[e["n"]], depth + 1)
+                if e.get("k") == "ref" and e.get("d") == "param" and start_only[0]:
+                    return (0, 0, 0)        # the start offset (pos) is irrelevant for recognising a pointer into the view
+                if e.get("k") == "call" and not e["a"] and astx.callee(e)[0] in ("data", "begin", "cbegin"):
+                    return (1, 0, 0)
+                if e.get("k") == "call" and not e["a"] and astx.callee(e)[0] in ("end", "cend"):
+                    return (1, 1, 0)
+                if e.get("k") == "call" and not e["a"] and astx.callee(e)[0] in ("size", "length"):
+                    return (0, 1, 0)
+                if e.get("k") == "mem" and astx.is_this(e.get("b")) and e.get("n") == "_begin":
+                    return (1, 0, 0)
+                if e.get("k") == "bin" and e["op"] in ("+", "-"):
+                    a, b = lin(e["l"], depth + 1), lin(e["r"], depth + 1)
+                    if a is None or b is None:
+                        return None
+                    sg = 1 if e["op"] == "+" else -1
+                    return (a[0] + sg * b[0], a[1] + sg * b[1], a[2] + sg * b[2])
+                return None
+            for lp in [st for st in astx.walk_stmts(f["body"]) if st.get("k") in ("for", "while") and st.get("c") is not None]:
+                c = astx.strip_casts(lp["c"])
+                if c is None or c.get("k") != "bin" or c["op"] not in ("!=", "<"):
+                    continue
+                # the cursor is a pointer local stepped upwards
+                cur = None
+                if lp.get("inc") is not None:
+                    for x in astx.walk_expr(lp["inc"]):
+                        if x.get("k") == "un" and x["op"] == "++":
+                            t = astx.strip_casts(x["e"])
+                            if t is not None and t.get("k") == "ref":
+                                cur = t["n"]
+                l0, r0 = astx.strip_casts(c["l"]), astx.strip_casts(c["r"])
+                if cur is None or l0 is None or l0.get("k") != "ref" or l0.get("n") != cur:
+                    continue
+                start = None
+                if lp.get("init") is not None and lp["init"].get("k") == "decl":
+                    for v in lp["init"]["vars"]:
+                        if v["n"] == cur and v.get("init") is not None:
+                            start_only[0] = True
+                            start = lin(v["init"])
+                            start_only[0] = False
+                if start is None or start[0] != 1:
+                    continue            # not a pointer into the view
+                n += 1
+                label = "%s :: scan with `%s` at line %s" % (astx.sig(f), cur, lp.get("line"))
+                chk.instance(rule)
+                end = lin(r0)
+                verdict = None if end is None else end == (1, 1, 0)
+                chk.obligation(rule, label, verdict)
+                if verdict is False:
+                    chk.violation(rule, label, "scan-end", "%s: the scan stops at `%s` = data() %+d*size() %+d; the last character of the view is at "
+                                  "data() + size() - 1, so the end is data() + size()" % (astx.loc(f, lp), astx.show(r0, 30), end[1], end[2]),
+                                  {"where": astx.loc(f)})
+                elif verdict is None:
+                    chk.unknown_instance(rule, label, "the end of the scan is not a linear form of data() and size()")
+    return n
